@@ -6,6 +6,7 @@ import (
 	"math/rand"
 	"os"
 	"regexp"
+	"strings"
 
 	"verif/harness/core"
 	"verif/harness/gen"
@@ -95,9 +96,23 @@ func runC13(c *core.Ctx) {
 			abs    *big.Rat
 		}
 		check := func(name string, args []string, wants []want, dec int, first string) {
+			odd := false
+			if i%5 == 3 {
+				// a configuration file with entries this version has no use for (an unknown key, an unknown
+				// section): the export is either refused or exactly the export - never CSV mixed with remarks
+				conf := []string{"[Global]\nTheme=dark\n", "[Plugins]\nName=x\n", "[Global]\nDbFileName=food.yaml\nColour=1\n", "; just a comment\n[Resolver]\nMaxdepth=10\nDepth=3\n"}[r.Intn(4)]
+				srv.Write(map[string]string{"odd.conf": conf})
+				args = append([]string{"--config", "odd.conf"}, args...)
+				odd = true
+				c.Count("runs_under_a_config_file_with_unknown_entries", 1)
+			}
 			res := srv.App1(args, nil)
 			c.Eval(1)
 			c.Count("runs_"+name, 1)
+			if odd && res.Exit != 0 && res.Panic == "" && strings.TrimSpace(res.Out) == "" {
+				c.Count("runs_refused_because_of_the_config_file", 1)
+				return
+			}
 			if quoted {
 				c.Nontrivial(files["food.yaml"], files["log.yaml"], name)
 			}
